@@ -106,7 +106,7 @@ class Parameters:
         parameters = {}
         for label, param_def, default in flatten_parameter_dict(parameter_dict):
             parameter = Parameter.from_list(param_def, default_options=default)
-            label += f".{parameter.label}"
+            label = f"{label}.{parameter.label}"
             parameter.label = label
             parameters[label] = parameter
 
